@@ -1,10 +1,13 @@
 #!/bin/sh
 # runs every implemented check (quick unless a tier is given) and prints one line each
 tier=${1:-quick}
-cd /verif || exit 2
+cd "$(dirname "$0")/.." || exit 2
+VERIF_DIR=$(pwd); export VERIF_DIR
 for id in C01 C02 C03 C04 C05 C06 C07 C08 C09 C10 C11 C12 C13 C14 C15 C16 C17 C18; do
   if grep -q "\"$id\" =>" harness/src/main.rs; then
+    start=$(date +%s)
     out=$(./check $id --tier $tier 2>&1); rc=$?
-    echo "rc=$rc $(echo "$out" | grep -E "^$id tier" | cut -c1-160) $(echo "$out" | grep -c '^VIOLATION') viol"
+    echo "rc=$rc $(echo "$out" | grep -E "^$id tier" | cut -c1-170) $(echo "$out" | grep -c '^VIOLATION') viol $(( $(date +%s) - start ))s"
+    echo "$out" | grep -E "^(VIOLATION|  kind|MACHINERY)" | head -6 | cut -c1-300
   fi
 done
